@@ -106,7 +106,7 @@ pub fn run_session(
                 let out = if is_decode {
                     let too_large = {
                         let p = sl.pipe.lock().unwrap();
-                        max_declared_samples(&p.data, sl.sorenson()) > SCREEN_SAMPLES
+                        max_declared_samples(&p.data, sl.sorenson()) > if s.screen > 0 { s.screen } else { SCREEN_SAMPLES }
                     };
                     if too_large {
                         excluded = true;
